@@ -50,10 +50,14 @@ HERE = os.path.dirname(os.path.abspath(__file__))
 # ----------------------------------------------------------------------------------------
 # the real handler around a scripted socket
 # ----------------------------------------------------------------------------------------
+GONE = {'pipe': BrokenPipeError, 'reset': ConnectionResetError, 'os': OSError, 'timeout': TimeoutError, 'other': ValueError}
+
+
 class FakeSock:
-    def __init__(self, chunks):
+    def __init__(self, chunks, gone=None):
         self.chunks = list(chunks)
         self.out = []
+        self.gone = gone       # {'after': n, 'exc': kind}: the peer goes away, only the first n calls of sendall succeed
 
     def settimeout(self, t):
         pass
@@ -62,6 +66,8 @@ class FakeSock:
         return self.chunks.pop(0) if self.chunks else b''
 
     def sendall(self, b):
+        if self.gone is not None and len(self.out) >= self.gone['after']:
+            raise GONE[self.gone['exc']]('the peer is gone')
         self.out.append(bytes(b))
 
     def shutdown(self, how):
@@ -211,7 +217,12 @@ class RecordingDispatcher:
         self.calls.append(msg)
         rec = {'async': []}
         self.script.append(rec)
-        n0 = len(self.sock.out)
+        concurrent = getattr(self, 'concurrent', False)
+        tried = []
+        if not concurrent:
+            # what the dispatcher sends itself during this call (also when the connection has stopped sending)
+            send = conn.send_reply
+            conn.send_reply = lambda data: (tried.append(data), send(data))[1]
         try:
             reply = self.real.handle_request(conn, msg)
         except SECoPError as e:
@@ -221,7 +232,9 @@ class RecordingDispatcher:
             rec.update(r='exc')
             raise
         finally:
-            rec['async'] = [] if getattr(self, 'concurrent', False) else [frame_rec(f) for f in self.sock.out[n0:]]
+            if not concurrent:
+                del conn.send_reply
+            rec['async'] = [t for t in map(triple_rec, tried) if t is not None]
         t = triple_rec(reply) if reply else None
         if t is None:
             rec.update(r='garbage')
@@ -371,7 +384,7 @@ def run_impl(case, shared=None):
     from frappy.protocol.interface.tcp import TCPRequestHandler
     detailed = set_stack_dump(bool(case['disp'].get('detailed')))
     chunks = [bytes.fromhex(c) for c in case['chunks']]
-    sock = FakeSock(chunks)
+    sock = FakeSock(chunks, case.get('gone'))
     d = shared if shared is not None else make_dispatcher(case['disp'])
     if not isinstance(d, StubDispatcher):
         d = RecordingDispatcher(d)
@@ -875,9 +888,14 @@ def evaluate(ctx, cases, impls=None):
     reqs = []
     for c, im, s in zip(cases, impls, streams):
         utf8, js = tables[s]
-        reqs.append({'p': 'C07', 'k': 'serve', 'chunks': c['chunks'], 'utf8': utf8, 'json': js, 'script': im['script']})
-        reqs.append({'p': 'C07', 'k': 'judge', 'stream': hx(s), 'outs': [hx(o) for o in im['outs']],
-                     'flags': [line_flags(o, c['disp']['kind'] == 'real') for o in im['outs']]})
+        gone = c.get('gone')
+        reqs.append({'p': 'C07', 'k': 'serve', 'chunks': c['chunks'], 'utf8': utf8, 'json': js, 'script': im['script'],
+                     'fail_after': gone['after'] if gone else None})
+        if gone:
+            reqs.append({'p': 'C07', 'k': 'judge_gone', 'stream': hx(s), 'outs': [hx(o) for o in im['outs']]})
+        else:
+            reqs.append({'p': 'C07', 'k': 'judge', 'stream': hx(s), 'outs': [hx(o) for o in im['outs']],
+                         'flags': [line_flags(o, c['disp']['kind'] == 'real') for o in im['outs']]})
     real = [i for i, c in enumerate(cases) if c['disp']['kind'] == 'real']
     for i in real:
         reqs.append(dispatch_request(impls[i]))
@@ -1113,6 +1131,8 @@ def request_class(line):
 
 
 def signature(ev):
+    if ev['case'].get('gone'):
+        return 'C07:peer_gone:' + ev['judge']['bad']['clause']
     bad = ev['judge']['bad']
     clause = bad['clause']
     lines = ev['stream'].split(b'\n')[:-1]
@@ -1150,7 +1170,10 @@ def shrink(ctx, ev):
     lines, tail = pieces[:-1], pieces[-1]
 
     def build(ls, with_tail=False):
-        return case_of([b''.join(x + b'\n' for x in ls) + (tail if with_tail else b'')], case['disp'])
+        c = case_of([b''.join(x + b'\n' for x in ls) + (tail if with_tail else b'')], case['disp'])
+        if case.get('gone'):
+            c['gone'] = case['gone']
+        return c
 
     def fails(ls):
         e = evaluate(ctx, [build(ls)])[0]
@@ -1171,6 +1194,8 @@ def describe(ev):
     if len(outs) > 8:
         outs = outs[:4] + [f'... {len(outs) - 7} more ...'] + outs[-3:]
     txt = f'{bad}: chunks={[bytes.fromhex(c)[:80] for c in ev["case"]["chunks"]][:6]} dispatcher={ev["case"]["disp"]} sent={outs}'
+    if ev['case'].get('gone'):
+        txt += f" (sendall fails from call {ev['case']['gone']['after']} on: {ev['case']['gone']['exc']})"
     if ev['impl']['died']:
         txt += ' HANDLER DIED: ' + ev['impl']['died_text'].strip().splitlines()[-1]
     return txt
@@ -1212,7 +1237,7 @@ def run(ctx):
             cases.append(case_of(chunks, disp))
         res.count('exhaustive-segmentation streams')
     # generated streams
-    for i in range(ctx.budget(2500, 12000)):
+    for i in range(ctx.budget(2200, 12000)):
         real = rng.random() < 0.2
         stream = gen_stream(rng, real, big)
         disp = {'kind': 'real', 'nan': rng.random() < 0.1} if real else {'kind': 'stub', 'plan': gen_plan(rng)}
@@ -1224,6 +1249,8 @@ def run(ctx):
                 disp['plan'] = [k if k != 'errshape' else 'none' for k in disp['plan']]
         for _ in range(2 if len(stream) < 3000 else 1):
             cases.append(case_of(segment(rng, stream), disp))
+            if rng.random() < 0.1:      # the peer goes away: sendall fails from some call on
+                cases[-1]['gone'] = {'after': rng.choice([0, 1, 1, 2, 3, 5, 11, 12, 13, 14, 20]), 'exc': rng.choice(sorted(GONE))}
 
     shrunk = 0
     seen_sigs = set()
@@ -1241,6 +1268,11 @@ def run(ctx):
             res.count('lines.async', sum(1 for o in obs if o['a'] in asy))
             nlines = ev['stream'].count(b'\n')
             res.count('dispatcher.' + case['disp']['kind'])
+            if case.get('gone'):
+                res.count('peer-gone.' + case['gone']['exc'])
+                res.count('peer-gone.lines-processed=%s' % (ev['model'].get('done') if ev['model'].get('done', 9) < 4 else '4+'))
+                res.count('peer-gone.loop-stopped' if len(im['outs']) == case['gone']['after'] and
+                          ev['model'].get('done', 0) < nlines else 'peer-gone.all-lines-processed')
             if case['disp'].get('detailed'):
                 res.count('detailed_errors=True')
                 res.count('detailed_errors=True.reports-with-traceback', sum(1 for o in im['outs'] if b'"traceback": "' in o))
@@ -1277,7 +1309,7 @@ def run(ctx):
                                        'detail': {'verdict': ev['judge']['bad'], 'died': ev['impl']['died_text']}})
     res.notes.append(f'{ncorpus} corpus cases run first')
     # ---------- sessions: connections one after the other on one node, run again with neutral lines left out ----------
-    gen = [gen_session(rng) for _ in range(ctx.budget(300, 4000))]
+    gen = [gen_session(rng) for _ in range(ctx.budget(250, 4000))]
     answers = ctx.driver.batch([{'p': 'C07', 'k': 'neutral', 'stream': hx(s)} for streams, _ in gen for s in streams])
     sessions = list(sess_corpus)
     pos = 0
@@ -1387,7 +1419,7 @@ def replay(ctx, rp):
         return 0 if o['bad'] is None and not wire else 1
     ev = evaluate(ctx, [case])[0]
     print('chunks :', [bytes.fromhex(c)[:200] for c in case['chunks']])
-    print('disp   :', case['disp'])
+    print('disp   :', case['disp'], 'peer gone:', case.get('gone'))
     print('impl   :', [o[:200] for o in ev['impl']['outs']])
     print('did    :', [r.get('r') for r in ev['impl']['script']])
     if ev['impl']['died']:
